@@ -24,3 +24,28 @@ H_ENTRY(h_sig_validity) {
   if (expired) vf_assert(s->expired, "expired flag is set for an expired signature");
   H_END();
 }
+
+// keys: the same time logic guards primary keys and subkeys (CheckValidity: now; CheckValidityPeriod: at a given instant)
+template<class K> static K *mkrec() { K *k = (K*)::operator new(sizeof(K)); memset((void*)k, 0, sizeof(K)); return k; }
+H_ENTRY(h_key_validity) {
+  uint32_t created = vf_nondet_u32(), expires = vf_nondet_u32(), binding = vf_nondet_u32(); unsigned which = vf_nondet_u8() & 1;
+  bool got; bool flag;
+  if (which) { TMCG_OpenPGP_Pubkey *k = mkrec<TMCG_OpenPGP_Pubkey>(); k->creationtime = created; k->expirationtime = expires; got = k->CheckValidity(0); flag = k->expired; binding = 0; }
+  else { TMCG_OpenPGP_Subkey *k = mkrec<TMCG_OpenPGP_Subkey>(); k->creationtime = created; k->expirationtime = expires; k->bindingtime = binding; got = k->CheckValidity(0); flag = k->expired; }
+  long seen = vf_time_seen(0);
+  bool expired = (expires != 0) && (seen > (long)created + (long)expires);
+  bool future = (long)created > seen + 25L * 3600L;
+  bool before = (binding != 0) && (created > binding);        // subkey only: binding signature made before the subkey existed
+  vf_assert(got == (!expired && !future && !before), "key CheckValidity <=> not expired, not > 25 h in the future, binding signature not older than the subkey");
+  vf_assert(flag == expired, "expired flag is set exactly for an expired key");
+  H_END();
+}
+H_ENTRY(h_key_validity_period) {
+  uint32_t created = vf_nondet_u32(), expires = vf_nondet_u32(); uint64_t at = vf_nondet_u64() & 0x1FFFFFFFFFFULL; unsigned which = vf_nondet_u8() & 1;
+  bool got;
+  if (which) { TMCG_OpenPGP_Pubkey *k = mkrec<TMCG_OpenPGP_Pubkey>(); k->creationtime = created; k->expirationtime = expires; got = k->CheckValidityPeriod((time_t)at, 0); }
+  else { TMCG_OpenPGP_Subkey *k = mkrec<TMCG_OpenPGP_Subkey>(); k->creationtime = created; k->expirationtime = expires; got = k->CheckValidityPeriod((time_t)at, 0); }
+  bool inside = ((long)at >= (long)created) && (expires == 0 || (long)at <= (long)created + (long)expires);
+  vf_assert(got == inside, "CheckValidityPeriod <=> creation <= at <= creation + expiration (no upper end without expiration)");
+  H_END();
+}
